@@ -171,6 +171,12 @@ def gen_cases(rnd, tier):
                 h["system"] = rnd.randint(0, 2**32 - 1)
             used.add(h["system"])
             msgs.append(split_py(h, body_of(rnd.choice([0, 1, 244, 245, 488, 500, 733]), rnd)))
+        # sometimes two of the messages are distinct transactions that carry the SAME system bytes: a primary of the peer (W-bit) and
+        # the reply to one of our requests (system bytes are chosen by each side for its own primaries)
+        if k >= 2 and rnd.random() < 0.35:
+            h0 = msgs[0][0][0]
+            h1 = dict(msgs[1][0][0], system=h0["system"], w=not h0["w"], function=(h0["function"] + 1) % 256)
+            msgs[1] = split_py(h1, body_of(rnd.choice([245, 300, 500]), rnd))
         order = []
         idx = [0] * k
         while any(idx[i] < len(msgs[i]) for i in range(k)):
